@@ -1,11 +1,69 @@
 package main
 
-import "math/big"
+import (
+	"math"
+	"math/big"
+	"strconv"
+	"strings"
+)
+
+// simplicity of a closed polyline does not depend on its start vertex or direction (exact
+// arithmetic), so the verdict is cached under a rotation/reversal-invariant key
+var simpleCache = map[string]byte{}
+
+func simpleKey(c [][4]float64) string {
+	enc := func(pts [][4]float64) string {
+		var sb strings.Builder
+		for _, v := range pts {
+			sb.WriteString(strconv.FormatUint(math.Float64bits(v[0]), 16))
+			sb.WriteByte(',')
+			sb.WriteString(strconv.FormatUint(math.Float64bits(v[1]), 16))
+			sb.WriteByte(';')
+		}
+		return sb.String()
+	}
+	n := len(c)
+	if n < 3 || math.Float64bits(c[0][0]) != math.Float64bits(c[n-1][0]) || math.Float64bits(c[0][1]) != math.Float64bits(c[n-1][1]) {
+		return "o" + enc(c)
+	}
+	open := c[:n-1]
+	m := len(open)
+	best := ""
+	buf := make([][4]float64, m)
+	for dir := 0; dir < 2; dir++ {
+		for k := 0; k < m; k++ {
+			for i := 0; i < m; i++ {
+				if dir == 0 {
+					buf[i] = open[(i+k)%m]
+				} else {
+					buf[i] = open[((k-i)%m+m)%m]
+				}
+			}
+			if e := enc(buf); best == "" || e < best {
+				best = e
+			}
+		}
+	}
+	return "c" + best
+}
+
+func isSimpleExact(c [][4]float64) byte {
+	key := simpleKey(c)
+	if v, ok := simpleCache[key]; ok {
+		return v
+	}
+	v := isSimpleExactUncached(c)
+	if len(simpleCache) > 200000 {
+		simpleCache = map[string]byte{}
+	}
+	simpleCache[key] = v
+	return v
+}
 
 // Exact simplicity of a polyline (rational arithmetic on the exact values of the float64
 // ordinates): '1' simple, '0' not simple, '?' not judged (fewer than two points, repeated
 // consecutive points or non-finite ordinates - the conventions for those belong to C03).
-func isSimpleExact(c [][4]float64) byte {
+func isSimpleExactUncached(c [][4]float64) byte {
 	n := len(c)
 	if n < 2 {
 		return '?'
